@@ -13,7 +13,8 @@ Case lines
                          node (g,i) owns child graph `child`, forwards child node `outn`, binds its own input slots in
   3 g i k code a b       op for node (g,i) in its k-th user-code run (k=-1 start hook, k=-2 default)
      code 1 schedule(now+a, tag b)  2 un_schedule(tag b)  3 un_schedule()  4 pop_tag(b)  5 reset()
-          6 emit a + sum(valid inputs)  7 graph.schedule_node(self, now+a)  8 throw "hgv boom a"
+          6 emit a + sum(valid inputs)  7 graph.schedule_node(self, now+a)  8 throw "hgv boom a" (b > 0: padded with a
+            deterministic filler to exactly b characters; the message id is then 100 + a + 1000000*b)
           9 out-of-band: child graph of sibling nested node a: schedule_node(b, child.evaluation_time())
   7 grp g i              oracle hint: recorder (g,i) belongs to equality group grp (C09: inlined / nested variants)
   8 g i                  oracle hint: (g,i) is a node that does not depend on any failing node (C15)
@@ -281,7 +282,9 @@ def _throw_op(rng, P):
     P.nthrow = getattr(P, "nthrow", 0) + 1
     if rng.random() < 0.15:
         return [11, 0, 0]
-    return [8, 10 * P.nthrow + rng.randint(0, 9), 0]
+    a = 10 * P.nthrow + rng.randint(0, 9)
+    # long messages: the tick must carry the WHOLE text ("hgv boom <a> <filler>" of exactly that length)
+    return [8, a, rng.choice([255, 256, 257, 300, 1000]) if rng.random() < 0.3 else 0]
 
 
 def gen_c15(rng, tier):
@@ -545,7 +548,7 @@ def throws_in(pc, run):
             g, i, t, k = l[1], l[2], l[3], l[4]
             for (code, a, b) in script_for(pc["scripts"], g, i, k):
                 if code in (8, 11):
-                    res.append((g, i, t, 100 + a if code == 8 else 2))
+                    res.append((g, i, t, 100 + a + 1000000 * b if code == 8 else 2))
                     break
     return res
 
@@ -581,6 +584,7 @@ def stats(case, out):
             "child_cycles": child_cycles, "selfdriven_child_cycles": selfdriven, "consecutive_steps": consec,
             "throws": len(th), "throws_at_index_gt0": sum(1 for x in th if x[1] > 0 and x[0] != 0),
             "throws_captured_by_node": sum(1 for x in th if pc["nodes"][(x[0], x[1])]["kind"] == 3),
+            "throws_long_message": sum(1 for x in th if x[3] >= 1000000), "throws_longer_than_256": sum(1 for x in th if x[3] >= 257000000),
             "passive_outer_ports": sum(1 for (g, i), n in pc["nodes"].items() if n["kind"] in (1, 2, 4) for s in n["ins"] if not s[2]),
             "pauses": sum(1 for l in r0 if l[0] == 17), "pausers": sum(1 for n in pc["nodes"].values() if n["kind"] == 5),
             "pausers_at_index_gt0": sum(1 for (g, i), n in pc["nodes"].items() if n["kind"] == 5 and i > 0),
